@@ -2,6 +2,7 @@ import Ktm.Ranking
 import Ktm.Metrics
 import Ktm.CoreC23
 import Ktm.HyperbandInv
+import Ktm.Symmetry
 /-! # C04 — best trials are the best COMPLETED trials in order; direction is symmetric
 
 Model: `Ranking.bestTrials` (`get_best_trials`: stable sort of the COMPLETED trials by score under the
@@ -70,6 +71,26 @@ theorem score_is_best_mean (m : Bool) (l : List Metrics.FV) :
 theorem nan_never_completed {V A : Type} (alg : Core.Alg V A) (maxRetries : Nat) (t : Core.Trial V) (oc : Core.Outcome) :
     (Core.endDecision alg maxRetries t oc).st = .completed → (Core.endDecision alg maxRetries t oc).sc.isSome :=
   (Core.endDecision_spec alg maxRetries t oc).2.2
+
+/-- **whole searches are symmetric**: two algorithm records that mirror each other (scoring rule of the negated reports =
+negated scoring rule; same choice of the next configuration on mirrored states) answer EVERY request list identically —
+same trial ids, same values, same IDLE / STOPPED / abort, for any number of tuners, any interleaving and any outcomes — … -/
+theorem whole_search_symmetric {V A : Type} (algMax algMin : Core.Alg V A) (m : Symmetry.Mirror algMax algMin)
+    (o : Core.Oracle V A) (ops : List Core.Op) :
+    Symmetry.outputs algMin (Symmetry.negO o) (ops.map Symmetry.negOp) = Symmetry.outputs algMax o ops :=
+  Symmetry.mirror_outputs algMax algMin m ops o
+
+/-- … and end in mirrored states: the same trials, statuses, orders and queues, every score negated -/
+theorem whole_search_states_mirror {V A : Type} (algMax algMin : Core.Alg V A) (m : Symmetry.Mirror algMax algMin)
+    (o : Core.Oracle V A) (ops : List Core.Op) :
+    Core.run algMin (Symmetry.negO o) (ops.map Symmetry.negOp) = Symmetry.negO (Core.run algMax o ops) :=
+  Symmetry.mirror_run algMax algMin m ops o
+
+/-- random search (and the Bayesian warm-up) and grid search are score-blind, hence symmetric as whole searches: maximising
+`s` and minimising `−s` issue the same trials -/
+theorem random_search_symmetric {W : Type} [DecidableEq W] (cands : Nat → List W) :
+    Symmetry.Mirror (Symmetry.randomAlg false cands) (Symmetry.randomAlg true cands) := Symmetry.random_mirror cands
+theorem grid_search_symmetric : Symmetry.Mirror (Symmetry.gridAlg false) (Symmetry.gridAlg true) := Symmetry.grid_mirror
 
 /-- Hyperband's promotion winner is symmetric: the first optimum when maximising `s` is the first
 optimum when minimising `−s` -/
